@@ -273,7 +273,52 @@ def _usize_like_u64(impls):
     return a == c, _diff(c, a)
 
 
+def _slot_mask(b, ty):
+    """mask(n) = (1 << n) - 1 if n < BITS else MAX, judged on the value it returns per branch"""
+    ret = b.return_expr()
+    alts = ret[2] if ret[0] == "phi" else (ret,)
+    shown = sorted(show(a) for a in alts)
+    edges = guard.cond_edges(b)
+    conds = [show(c) for _, c, _, _ in edges]
+    if shown == ["MAX", "wrapping_sub(ONE << length, 1)"] and conds == ["length < (BITS as usize)"]:
+        # the shifted arm must be the one taken when the condition holds
+        sb, c, ts, fs = edges[0]
+        for bb, t, fn in b.iter_calls():
+            if fn and fn["name"] == "wrapping_sub":
+                if b.edge_dominates((sb, ts), bb):
+                    return "pass", "mask(n) = (1 << n) - 1 if n < BITS else MAX"
+                return "violation", "(1 << n) - 1 is computed on the branch where n >= BITS"
+        return "pass", "mask(n) = (1 << n) - 1 if n < BITS else MAX"
+    if len(alts) == 2 and len(edges) == 1 and not any(bb for bb, t, fn in b.iter_calls() if fn and fn["name"] not in ("wrapping_sub", "shl", "sub")):
+        return "violation", "mask is %s under %s" % (shown, conds)
+    return "undecided", "mask is written in a form this rule does not model (%s under %s): its value is not decided" % (shown, conds)
+
+
+def _slot_carry(b, op):
+    ret = b.return_expr()
+    ok = is_bin(ret, "Add") and all(
+        mir.strip_casts(x)[0] == "field" and mir.strip_casts(x)[2] == "1" and is_call(mir.strip_casts(x)[1], op)
+        for x in (ret[2], ret[3]))
+    if ok and mir.strip_casts(ret[2]) != mir.strip_casts(ret[3]):
+        return "pass", "carry-out = c1 + c2 of both %s steps" % op
+    n = sum(1 for bb, t, fn in b.iter_calls() if fn and fn["name"] == op)
+    if n >= 1:
+        return "violation", "carry-out `%s` is not c1 + c2 of both %s steps" % (show(ret), op)
+    return "undecided", "carry-out `%s` is computed without %s: not decided" % (show(ret)[:80], op)
+
+
+def _slot_count(b, name, ty):
+    ret = mir.strip_casts(b.return_expr())
+    if ret[0] == "call" and ret[1] in ("leading_zeros", "leading_ones", "trailing_zeros", "trailing_ones"):
+        ok = ret[1] == name and len(ret[3]) == 1 and mir.strip_casts(ret[3][0]) in (("param", "self"), ("deref", ("param", "self")))
+        return ("pass", "%s::%s(*self)" % (ty, name)) if ok else ("violation", "returns %s" % show(ret))
+    return "undecided", "returns %s: a form this rule does not model" % show(ret)[:80]
+
+
 def word_primitives(crate):
+    """Every word type's copy of an Integer primitive is judged on its own semantic slots (SLOT: the carry-out, the mask
+    value per branch, the widened product, the std counting function). The textual comparison of the six copies (SIB)
+    is a lead only: a behaviour-preserving rewrite of one copy produces the same difference as a one-sided bug."""
     res = []
     by = {}
     for b in crate.bodies:
@@ -284,6 +329,32 @@ def word_primitives(crate):
         if len(impls) < 6:
             res.append((None, "SIB %s" % name, "violation", "only %d of 6 word types implement Integer::%s" % (len(impls), name)))
             continue
+        for ty in WORD_TYPES:
+            b = impls[ty]
+            if name == "mask":
+                v, why = _slot_mask(b, ty)
+            elif name in ("cadd", "csub"):
+                v, why = _slot_carry(b, "overflowing_add" if name == "cadd" else "overflowing_sub")
+            elif name == "wmul":
+                if ty == "u128":
+                    continue
+                buf = io.StringIO()
+                dump.dump_body(b, buf, with_idx=False)
+                raw = buf.getvalue()
+                m = re.search(r"\(self as (u\d+)\) \* \(rhs as (u\d+)\)", raw)
+                if m and m.group(1) == m.group(2):
+                    wide = m.group(1)
+                    ok = WIDTH[wide] >= 2 * WIDTH[ty]
+                    v, why = ("pass" if ok else "violation"), "widened to %s (%d bits %s 2 x %d)" % (wide, WIDTH[wide], ">=" if ok else "<", WIDTH[ty])
+                elif re.search(r"self as u\d+|rhs as u\d+", raw):
+                    v, why = "violation", "product is not (self as W) * (rhs as W)"
+                else:
+                    v, why = "undecided", "the product is not computed by widening casts: not decided"
+                res.append((b, "SIB wmul widening %s" % ty, v, why))
+                continue
+            else:
+                v, why = _slot_count(b, name, ty)
+            res.append((b, "SLOT %s %s" % (name, ty), v, why))
         if name == "wmul":
             sigs = {}
             for ty in ("u8", "u16", "u32", "u64", "usize"):
@@ -293,29 +364,25 @@ def word_primitives(crate):
                 raw = buf.getvalue()
                 m = re.search(r"\(self as (u\d+)\) \* \(rhs as (u\d+)\)", raw)
                 if not m or m.group(1) != m.group(2):
-                    res.append((b, "SIB wmul widening %s" % ty, "violation", "product is not (self as W) * (rhs as W)"))
                     continue
                 wide = m.group(1)
-                ok = WIDTH[wide] >= 2 * WIDTH[ty]
-                res.append((b, "SIB wmul widening %s" % ty, "pass" if ok else "violation",
-                            "widened to %s (%d bits %s 2 x %d)" % (wide, WIDTH[wide], ">=" if ok else "<", WIDTH[ty])))
-                s = "\n".join(raw.splitlines()[2:])
-                s = s.replace(" as usize", " as USIZE")
-                s = re.sub(r"\b%s\b" % wide, "WIDE", s)
-                s = re.sub(r"\b%s\b" % ty, "T", s)
-                s = re.sub(r"\b%d\b" % WIDTH[ty], "W", s)
-                s = re.sub(r"\b%d\b" % WIDTH[wide], "WW", s)
-                s = re.sub(r"<(u8|u16|u32|u64|u128|usize|T) as", "<T as", s)
-                sigs[ty] = s
+                s2 = "\n".join(raw.splitlines()[2:])
+                s2 = s2.replace(" as usize", " as USIZE")
+                s2 = re.sub(r"\b%s\b" % wide, "WIDE", s2)
+                s2 = re.sub(r"\b%s\b" % ty, "T", s2)
+                s2 = re.sub(r"\b%d\b" % WIDTH[ty], "W", s2)
+                s2 = re.sub(r"\b%d\b" % WIDTH[wide], "WW", s2)
+                s2 = re.sub(r"<(u8|u16|u32|u64|u128|usize|T) as", "<T as", s2)
+                sigs[ty] = s2
             ref = sigs.get("u8")
-            for ty, s in sigs.items():
+            for ty, s2 in sigs.items():
                 if ty == "usize":
                     ok, d = _usize_like_u64(impls)
-                    res.append((impls[ty], "SIB wmul usize", "pass" if ok else "violation",
-                                "same body as u64::wmul with the type renamed" if ok else "body differs from u64::wmul:\n" + d))
+                    res.append((impls[ty], "SIB wmul usize", "pass" if ok else "undecided",
+                                "same body as u64::wmul with the type renamed" if ok else "lead: body differs from u64::wmul:\n" + d))
                     continue
-                res.append((impls[ty], "SIB wmul %s" % ty, "pass" if s == ref else "violation",
-                            "same body as u8::wmul modulo types" if s == ref else "body differs from u8::wmul:\n" + _diff(ref, s)))
+                res.append((impls[ty], "SIB wmul %s" % ty, "pass" if s2 == ref else "undecided",
+                            "same body as u8::wmul modulo types" if s2 == ref else "lead: body differs from u8::wmul:\n" + _diff(ref or "", s2)))
             res.append((impls["u128"], "SIB wmul u128", "undecided",
                         "u128::wmul (4-limb schoolbook) has no sibling to compare with: not decided"))
             continue
@@ -324,40 +391,13 @@ def word_primitives(crate):
         for ty in WORD_TYPES:
             if ty == "usize":
                 ok, d = _usize_like_u64(impls)
-                res.append((impls[ty], "SIB %s usize" % name, "pass" if ok else "violation",
-                            "same body as u64::%s with the type renamed" % name if ok else "body differs from u64::%s:\n%s" % (name, d)))
+                res.append((impls[ty], "SIB %s usize" % name, "pass" if ok else "undecided",
+                            "same body as u64::%s with the type renamed" % name if ok else "lead: body differs from u64::%s:\n%s" % (name, d)))
                 continue
             ok = sigs[ty] == ref
-            res.append((impls[ty], "SIB %s %s" % (name, ty), "pass" if ok else "violation",
+            res.append((impls[ty], "SIB %s %s" % (name, ty), "pass" if ok else "undecided",
                         "same body as u64::%s modulo the word type" % name if ok else
-                        "body differs from u64::%s:\n%s" % (name, _diff(ref, sigs[ty]))))
-    # semantic slots of the reference copies (so that editing all six alike is also seen)
-    b = by.get("cadd", {}).get("u64")
-    if b is not None:
-        ret = b.return_expr()
-        ok = is_bin(ret, "Add") and all(
-            mir.strip_casts(x)[0] == "field" and mir.strip_casts(x)[2] == "1" and is_call(mir.strip_casts(x)[1], "overflowing_add")
-            for x in (ret[2], ret[3]))
-        res.append((b, "SLOT cadd carry-out", "pass" if ok else "violation",
-                    "carry-out = c1 + c2 of both overflowing_add steps" if ok else "carry-out `%s` is not c1 + c2 of both steps" % show(ret)))
-    b = by.get("csub", {}).get("u64")
-    if b is not None:
-        ret = b.return_expr()
-        ok = is_bin(ret, "Add") and all(
-            mir.strip_casts(x)[0] == "field" and mir.strip_casts(x)[2] == "1" and is_call(mir.strip_casts(x)[1], "overflowing_sub")
-            for x in (ret[2], ret[3]))
-        res.append((b, "SLOT csub borrow-out", "pass" if ok else "violation",
-                    "borrow-out = c1 + c2 of both overflowing_sub steps" if ok else "borrow-out `%s` is not c1 + c2" % show(ret)))
-    b = by.get("mask", {}).get("u64")
-    if b is not None:
-        ret = b.return_expr()
-        alts = ret[2] if ret[0] == "phi" else (ret,)
-        shown = sorted(show(a) for a in alts)
-        ok = shown == ["MAX", "wrapping_sub(ONE << length, 1)"]
-        conds = [show(c) for _, c, _, _ in guard.cond_edges(b)]
-        ok = ok and conds == ["length < (BITS as usize)"]
-        res.append((b, "SLOT mask", "pass" if ok else "violation",
-                    "mask(n) = (1 << n) - 1 if n < BITS else MAX" if ok else "mask is %s under %s" % (shown, conds)))
+                        "lead: body differs from u64::%s:\n%s" % (name, _diff(ref, sigs[ty]))))
     return res
 
 
@@ -796,6 +836,77 @@ def parse_protocol(crate):
 # CONST
 # --------------------------------------------------------------------------------------------
 
+def _zero_test(rel, p):
+    """'zero' / 'nonzero' when the relation (op, lhs, rhs) says so about the unsigned parameter p, else None"""
+    op, x, y = rel
+    if x == p and y == ("int", 0):
+        return {"Eq": "zero", "Ne": "nonzero", "Gt": "nonzero", "Le": "zero"}.get(op)
+    if x == p and y == ("int", 1):
+        return {"Ge": "nonzero", "Lt": "zero"}.get(op)
+    return None
+
+
+def _bit_from_word(b):
+    """<Bit as From<uN | bool>>::from judged as a map {0/false -> Zero, anything else -> One}, whatever its spelling:
+    a match on the value, an if on `u == 0` / `u != 0`, or forwarding `u != 0` to From<bool>"""
+    p = ("param", b.local_name(1))
+    r = b.return_expr()
+    if is_call(r, "from") and len(r[3]) == 1 and "Bit" in (r[2] or ""):
+        a = r[3][0]
+        if is_bin(a, ("Eq", "Ne", "Gt", "Ge", "Lt", "Le")):
+            for rel in guard.relations_on_edge(a, True):
+                z = _zero_test(rel, p)
+                if z == "nonzero":
+                    return "pass", "Bit::from(u != 0): 0 -> Zero, anything else -> One (through From<bool>)"
+                if z == "zero":
+                    return "violation", "forwards `%s` to From<bool>: zero maps to One" % show(a)
+        return "undecided", "forwards `%s` to another conversion: not decided" % show(a)[:60]
+    arms = {}
+    for x in sorted(b.reachable_blocks()):
+        for st in b.blocks[x]["st"]:
+            if st["s"] == "assign" and st["p"]["l"] == 0 and not st["p"]["pr"] and st["r"]["k"] == "agg":
+                arms[x] = st["r"].get("variant")
+    if not arms:
+        return "undecided", "returns %s: a form this rule does not model" % show(r)[:60]
+    seen = {}
+    for x, variant in arms.items():
+        when = None
+        for sb, t in b.iter_switches():
+            e, m = b.switch_cond(sb)
+            if e == p:
+                for s2, vs in m.items():
+                    if b.edge_dominates((sb, s2), x) or s2 == x:
+                        when = "zero" if vs == ["0"] else "nonzero" if "0" not in vs else None
+        if when is None:
+            for sb, cond, taken, _, _ in guard.edges_dominating(b, x):
+                for rel in guard.relations_on_edge(cond, taken):
+                    when = when or _zero_test(rel, p)
+        if when is None:
+            return "undecided", "the condition under which %s is returned is not in a form this rule reads" % variant
+        seen[when] = variant
+    if seen == {"zero": "Zero", "nonzero": "One"}:
+        return "pass", "0/false -> Zero, anything else -> One"
+    return "violation", "mapping is not {0 => Zero, _ => One}: %s" % seen
+
+
+def _word_from_bit(b):
+    p = ("param", b.local_name(1))
+    r = mir.strip_casts(b.return_expr())
+    if r == ("discr", p) or r == p:
+        return "pass", "`bit as T`: the discriminants of Bit are Zero = 0, One = 1"
+    ok = None
+    for sb, t in b.iter_switches():
+        e, m = b.switch_cond(sb)
+        if e == ("discr", p):
+            z = [s2 for s2, vs in m.items() if "0" in vs]
+            o = [s2 for s2, vs in m.items() if "1" in vs]
+            if len(z) == 1 and len(o) == 1:
+                ok = _assigns_const(b, z[0], (0, "false")) and _assigns_const(b, o[0], (1, "true"))
+    if ok is None:
+        return "undecided", "returns %s: a form this rule does not model" % show(b.return_expr())[:60]
+    return ("pass", "Zero -> 0/false, One -> 1/true") if ok else ("violation", "mapping is not {Zero => 0, One => 1}")
+
+
 def bit_conversions(crate):
     res = []
     for b in crate.bodies:
@@ -804,30 +915,11 @@ def bit_conversions(crate):
         st = b.self_ty
         arg = b.trait_args[0] if b.trait_args else None
         if st == "Bit" and arg in WORD_TYPES + ("bool",):
-            # match u { 0 => Zero, _ => One }
-            key = "%s|CONST" % b.key
-            ok = False
-            for sb, t in b.iter_switches():
-                e, m = b.switch_cond(sb)
-                if e == ("param", b.local_name(1)):
-                    zero_t = [s for s, vs in m.items() if "0" in vs]
-                    other_t = [s for s, vs in m.items() if "0" not in vs]
-                    if len(zero_t) == 1 and len(other_t) == 1:
-                        ok = _assigns_variant(b, zero_t[0], "Zero") and _assigns_variant(b, other_t[0], "One")
-            res.append((b, key, "pass" if ok else "violation",
-                        "0/false -> Zero, anything else -> One" if ok else "mapping is not {0 => Zero, _ => One}"))
+            v, why = _bit_from_word(b)
+            res.append((b, "%s|CONST" % b.key, v, why))
         elif arg == "Bit" and st in WORD_TYPES + ("bool",):
-            key = "%s|CONST" % b.key
-            ok = False
-            for sb, t in b.iter_switches():
-                e, m = b.switch_cond(sb)
-                if e == ("discr", ("param", b.local_name(1))):
-                    z = [s for s, vs in m.items() if "0" in vs]
-                    o = [s for s, vs in m.items() if "1" in vs]
-                    if len(z) == 1 and len(o) == 1:
-                        ok = _assigns_const(b, z[0], (0, "false")) and _assigns_const(b, o[0], (1, "true"))
-            res.append((b, key, "pass" if ok else "violation",
-                        "Zero -> 0/false, One -> 1/true" if ok else "mapping is not {Zero => 0, One => 1}"))
+            v, why = _word_from_bit(b)
+            res.append((b, "%s|CONST" % b.key, v, why))
     return res
 
 
@@ -1530,6 +1622,56 @@ def positional_indices(crate):
             res.append((b, "%s|POS" % b.key, "violation", "; ".join(dict.fromkeys(bad))))
         elif n:
             res.append((b, "%s|POS" % b.key, "pass", "%d enumerate-derived word indices, none behind a filtering adaptor" % n))
+    return res
+
+
+# --------------------------------------------------------------------------------------------
+# ENDANCHOR: the top *used* words are not the top *allocated* words
+# --------------------------------------------------------------------------------------------
+
+def _whole_storage_of_param(e):
+    e = mir.strip_casts(e)
+    while is_call(e, ("as_ref", "as_slice", "deref", "borrow", "copied", "cloned", "by_ref", "into_iter")) and len(e[3]) == 1:
+        e = mir.strip_casts(e[3][0])
+    return e[0] == "field" and e[2] == "data" and e[1][:1] == ("param",)
+
+
+def end_anchored_reads(crate):
+    """`self.data.iter().rev().take(n)` with n a number of *used* words (derived from the bit length): the reversed walk
+    starts at the last allocated word, so with spare capacity (Bvd after reserve / shrinking, Bvf below its capacity) it
+    visits unused words and never reaches the most significant used ones. The two consistent forms are
+    `self.data[..n].iter().rev()` and `(0..n).rev()`. Reported wherever the contradiction (allocation-end anchor,
+    used-word count) appears; other end-anchored walks over a parameter's storage are listed as leads."""
+    res = []
+    for b in crate.bodies:
+        if b.self_family not in ("Bvf", "Bvd") and not (b.kind == "Closure" and ("dynamic::" in b.path or "fixed::" in b.path)):
+            continue
+        bad, leads, n = [], [], 0
+        for bb, t, fn in b.iter_calls():
+            if not fn or fn["name"] not in ("take", "rev"):
+                continue
+            e = b.e_call(t)
+            if is_call(e, "rev") and len(e[3]) == 1:
+                inner = e[3][0]
+                if is_call(inner, ("iter", "iter_mut")) and inner[3] and _whole_storage_of_param(inner[3][0]):
+                    n += 1
+                    leads.append("reversed walk over the whole allocation `%s`" % show(e)[:60])
+            if is_call(e, "take") and len(e[3]) == 2:
+                src = e[3][0]
+                while is_call(src, ("copied", "cloned", "by_ref", "into_iter")) and len(src[3]) == 1:
+                    src = src[3][0]
+                if is_call(src, "rev") and len(src[3]) == 1:
+                    inner = src[3][0]
+                    if is_call(inner, ("iter", "iter_mut")) and inner[3] and _whole_storage_of_param(inner[3][0]):
+                        cnt = e[3][1]
+                        if mir.contains(cnt, lambda x: is_call(x, ("capacity_from_bit_len", "len", "int_len", "significant_bits"))
+                                        or (isinstance(x, tuple) and x[:1] == ("field",) and x[2] == "length")):
+                            bad.append("`%s`: the walk starts at the last *allocated* word but is limited to a number of *used* words"
+                                       % show(e)[:90])
+        if bad:
+            res.append((b, "%s|ENDANCHOR" % b.key, "violation", "; ".join(dict.fromkeys(bad))))
+        elif n:
+            res.append((b, "%s|ENDANCHOR" % b.key, "undecided", "lead: " + "; ".join(dict.fromkeys(leads))))
     return res
 
 
